@@ -53,6 +53,14 @@ func (*StringCastingMangler) Unmangle(sf reflect.StructField, vs []FieldValueTup
 	if parseErr != nil {
 		return val, parseErr
 	}
+	// A user-declared pointer to a slice or map is still a pointer after
+	// pointerification, while parse.String hands back the slice or map itself:
+	// point at it.
+	if sf.Type.Kind() == reflect.Ptr && val.Kind() != reflect.Ptr && val.Type().ConvertibleTo(sf.Type.Elem()) {
+		ptr := reflect.New(sf.Type.Elem())
+		ptr.Elem().Set(val.Convert(sf.Type.Elem()))
+		val = ptr
+	}
 	// parse.String goes by the kind of the type, so for a user-defined named
 	// type (e.g. `type Level uint8`) it hands back the unnamed equivalent:
 	// convert it to the field's own type.
